@@ -11,7 +11,10 @@ Case grammar: see harness/bounded_h.cpp.  Two kinds of cases:
          names with right and wrong types, degenerate and hostile patterns, archived query filters of any shape, deep
          nesting -- sent by hostile clients, partly while they do not read.
 In both streams the property's own statement is evaluated after every op: the witness (client 0) sends a PING and must
-get its PONG back within a fixed number of event-loop turns; a handler that does not return trips the watchdog.
+get its PONG back within a fixed number of event-loop turns; a handler that does not return trips the watchdog (20 s); an op
+that burns more than 2 s of process CPU time (ordinary ops: < 0.1 s) is reported as a slow handler.
+Known finding F60 (regcomp bomb) is re-confirmed by a calibrated small bomb in the quick tier and by the full-size one in the
+thorough tier (see BOMB_* below).
 """
 import os, re
 import vlib
@@ -546,17 +549,25 @@ class CHECK(vlib.Check):
                 "client that has stopped reading (no writable socket -> no DoOutput).  Not modelled (flood stream: oracle + sanitizers only): "
                 "arbitrary what-codes and field types, real regex / QueryFilter evaluation of hostile patterns and archives, parameters other "
                 "than subscriptions, client-to-client Messages, ordered indices, keep-alive, reply encoding, sockets and select.")
-    premises = ["MatchLaws-free: the fuel theorems hold for ANY clause matcher and filter (class MatchOps is a parameter); termination of "
+    premises = ["theorems (Properties_C07.v): handler/step/run totality with fuel linear in the heaviest queued Message a jettison pass "
+                "meets (handler_fuel is `_partial`: no polynomial bound of that weight in the INITIAL state), fuelled run = meaning for any "
+                "fuel, witness_ping_answered (+_fuel, +_any_fuel) for every history of other sessions' events, jettison_refuted (F4), "
+                "NodeChangedAux / RemoveChild / DoTraversal fuel adequacy, what-code dispatch coverage over the regenerated constants",
+                "MatchLaws-free: the fuel theorems hold for ANY clause matcher and filter (class MatchOps is a parameter); termination of "
                 "regexec / QueryFilter::Matches themselves is runtime (libc / C14)",
                 "a client that does not read is modelled as a session whose DataIO reports no writable socket (what a full TCP send buffer "
                 "looks like to ReflectServer::HandleEvents); bytes already handed to the kernel are out of scope",
                 "memory safety and object lifetime of the C++ (observed by ASan/UBSan in the harness only); real time (the oracle counts "
-                "event-loop turns and uses a wall-clock watchdog)"]
+                "event-loop turns, process CPU time per op and uses a wall-clock watchdog)",
+                "the libc regex engine: compile / match cost of hostile patterns is runtime (known finding F60: nested interval "
+                "expressions; back-reference patterns are polynomial of high degree in the subject length)",
+                "notification order among the subscribers of one node (iteration order of a pooled immutable table) is not modelled; the "
+                "modelled stream avoids the two situations where it is observable (max-items flush / forced flush with several subscribers)"]
     rule = ("modelled stream: multi-client histories from random.Random(seed) over the model's commands, with clients that stop reading; after "
             "EVERY op the Messages received per client, the outgoing queue of every non-reading session, the tree with subscriber tables and "
             "the subscription entries are compared with the extracted model.  flood stream: arbitrary structurally valid Messages (oracle only).  "
             "After every op of both streams the witness's PING must be answered within 40 event-loop turns; a watchdog turns a hang into a "
-            "failure.  Non-trivial = a jettison / data-tree / batch command issued while a non-reading client has queued replies, or a flood "
+            "failure; more than 2 s of process CPU time for one op is a slow-handler failure.  Non-trivial = a jettison / data-tree / batch command issued while a non-reading client has queued replies, or a flood "
             "case with degenerate patterns or archived filters.")
 
     def gen_cases(self, rng, tier):
